@@ -345,7 +345,7 @@ def inside_point(rng, s, kind):
 
 
 def rnd_pose(rng, obj, maxlen=4, spread=2.0):
-    n = rng.choice([1, 1, 2, 3, maxlen])
+    n = min(maxlen, rng.choice([1, 1, 2, 3, maxlen]))
     if n == 1:
         obj.position = rvec(rng, -spread, spread)
         obj.orientation = rnd_rot(rng)
@@ -385,12 +385,12 @@ def real_setup(rng, max_entries=3, kinds=None):
     return entries, desc
 
 
-def nested_setup(rng):
+def nested_setup(rng, maxlen=2):
     """ONE collection (static own pose) holding a source and a nested collection whose own position differs"""
     s1, k1 = real_source(rng)
-    rnd_pose(rng, s1, maxlen=2)
+    rnd_pose(rng, s1, maxlen=maxlen)
     s2, k2 = real_source(rng)
-    rnd_pose(rng, s2, maxlen=2)
+    rnd_pose(rng, s2, maxlen=maxlen)
     inner = magpy.Collection(s2)
     inner._position = np.array([rvec(rng, -1.5, 1.5)])
     inner._orientation = rnd_rot(rng, 1)
